@@ -193,16 +193,10 @@ Qed.
 (* domain of the re-entrant checker                                    *)
 (* ------------------------------------------------------------------ *)
 Definition sd_domain (c : cfg) : Prop :=
-  (* the disconnect handler of a namespace does not also serve an ordinary event of it *)
-  (forall ns ev args h a, reserved ev = false -> responsible c ev ns args = Some (Some h, a) ->
-                          hid_for c ev_disconnect ns <> Some h) /\
-  (* the checker's test "the disconnect handler takes 1, 2 or 3 arguments" is exact: it fits what it
-     is actually called with (catch-all targets get the namespace prepended) *)
-  (forall ns dh pre b, responsible c ev_disconnect ns [] = Some (Some dh, pre) ->
-                       aget N.eqb (behav c) dh = Some b ->
-                       (arity_ok c dh 2 || arity_ok c dh 1 || arity_ok c dh 3) = true ->
-                       arity_bad b (List.length (pre ++ [PNone; PNone])) = false \/
-                       arity_bad b (List.length (pre ++ [PNone])) = false).
+  (* the disconnect handler of a namespace does not also serve an ordinary event of it
+     (the generator never shares a handler id between events) *)
+  forall ns ev args h a, reserved ev = false -> responsible c ev ns args = Some (Some h, a) ->
+                         hid_for c ev_disconnect ns <> Some h.
 
 Lemma te_disconnect_calls c ns l x :
   In x (calls_of (fst (te_pure c ev_disconnect ns l))) -> hid_for c ev_disconnect ns = Some (fst x).
@@ -255,7 +249,7 @@ Theorem model_passes_c05_sd_step c s eio payload tbl :
   has_actions c = false -> MOK (mg s) -> sd_domain c ->
   c05_sd_step c s eio payload tbl (snd (xstep c s (EventSD eio payload tbl))) = true.
 Proof.
-  intros Hna Hm [HD1 HD2]. unfold c05_sd_step. rewrite Hna, orb_false_r.
+  intros Hna Hm HD1. unfold c05_sd_step. rewrite Hna, orb_false_r.
   destruct (existsb (str_eqb eio) (live s)) eqn:Hl; [cbn [negb]|reflexivity].
   destruct (event_of c s eio payload tbl) as [[[pn id] data]|] eqn:He; [|reflexivity].
   set (ns := ns_or_default pn).
@@ -320,20 +314,24 @@ Proof.
     destruct (frames_of c ACK (PList (pack v)) ns (Some i)) as [fr|x] eqn:Hfr; [|reflexivity].
     (* did the disconnect go through? *)
     assert (Hdone : unit_res (snd ted) = Ok tt \/
-                    match hid_for c ev_disconnect ns with
-                    | Some dh => match match aget N.eqb (behav c) dh with Some b => Some (h_outcome b) | None => None end with
-                                 | Some (Returns _) => negb (arity_ok c dh 2 || arity_ok c dh 1 || arity_ok c dh 3)
-                                 | _ => true end
-                    | None => false end = true).
-    { unfold ted, hid_for. rewrite te_disconnect.
+                    match responsible c ev_disconnect ns [] with
+                    | Some (Some dh, pre) =>
+                        match match aget N.eqb (behav c) dh with Some b => Some (h_outcome b) | None => None end with
+                        | Some (Returns _) => negb (arity_ok c dh (List.length pre + 2) || arity_ok c dh (List.length pre + 1))
+                        | _ => true end
+                    | _ => false end = true).
+    { unfold ted. rewrite te_disconnect.
       destruct (responsible c ev_disconnect ns []) as [[[dh|] pre]|] eqn:Hrd; [|left; reflexivity|left; reflexivity].
       destruct (aget N.eqb (behav c) dh) as [db|] eqn:Hdb; [|right; reflexivity].
       destruct (h_outcome db) as [dv|dra|dx] eqn:Hdo; [|right; reflexivity|right; reflexivity].
-      destruct (arity_ok c dh 2 || arity_ok c dh 1 || arity_ok c dh 3) eqn:Hflag; [|right; reflexivity].
-      left. pose proof (disc_args_length sid r_server_disconnect db pre (HD2 ns dh pre db Hrd Hdb Hflag)) as Hfit.
+      destruct (arity_ok c dh (List.length pre + 2) || arity_ok c dh (List.length pre + 1)) eqn:Hflag; [|right; reflexivity].
+      left.
+      assert (Hfit : arity_bad db (List.length (disc_args sid r_server_disconnect db pre)) = false).
+      { apply disc_args_length. rewrite !(arity_ok_bad c dh db _ Hdb) in Hflag. rewrite !app_length. cbn [List.length].
+        apply orb_true_iff in Hflag as [H|H]; apply negb_true_iff in H; [left|right]; exact H. }
       pose proof (te_disconnect_returns c ns sid r_server_disconnect dh pre db dv Hrd Hdb Hfit Hdo) as Hte.
       rewrite te_disconnect, Hrd in Hte. rewrite Hte. reflexivity. }
-    destruct Hdone as [Hdone|Hdone]; [|unfold outcome_of; rewrite Hdone; reflexivity].
+    destruct Hdone as [Hdone|Hdone]; [|rewrite Hdone; reflexivity].
     unfold A. rewrite Hdone. cbn [ack_effs]. rewrite Hfr, (sp_effs_live s eio fr Hl).
     rewrite outs_of_cons_call, outs_of_cons_out, outs_of_app, outs_of_map_out.
     rewrite (outs_of_no_eios eio (fst ted) Hno). cbn [app].
@@ -466,16 +464,15 @@ Module SdEx.
        Call 7 [S 2]; Out e1 (PStr (s2l "1/chat,")); Call 6 [S 2]; Out e1 (PStr (s2l "3/chat,7[[7]]"))].
   Proof. vm_compute. split; reflexivity. Qed.
 
-  (* domain condition 2 is needed: a disconnect handler of "/" declared with three parameters is
-     never called successfully (2 arguments, then the legacy 1), the disconnect raises TypeError and
-     no ACK is sent - but the checker's "1, 2 or 3 parameters" test expects one *)
+  (* a disconnect handler of "/" declared with three parameters is never called successfully
+     (2 arguments, then the legacy 1): the disconnect raises TypeError and no ACK is sent *)
   Definition c3 : cfg :=
     mkCfg [(slash, [(s2l "connect", 1%N); (s2l "disconnect", 2%N); (s2l "msg", 3%N)])] []
           [(1%N, mkBehav (Some 2%nat) [] (Returns PNone)); (2%N, mkBehav (Some 3%nat) [] (Returns PNone));
            (3%N, mkBehav (Some 2%nat) [] (Returns (PInt 9)))]
           (Some [slash]) false true.
   Definition s3 := fst (run c3 srv_init [EioConnect e1 env1; EioMessage e1 (PStr (s2l "0")) []]).
-  (* domain condition 1 is needed: one handler id for "msg" and for disconnect *)
+  (* the domain condition is needed: one handler id for "msg" and for disconnect *)
   Definition c1 : cfg :=
     mkCfg [(slash, [(s2l "connect", 1%N); (s2l "disconnect", 3%N); (s2l "msg", 3%N)])] []
           [(1%N, mkBehav (Some 2%nat) [] (Returns PNone)); (3%N, mkBehav (Some 2%nat) [] (Returns (PInt 9)))]
@@ -484,28 +481,20 @@ Module SdEx.
 End SdEx.
 
 Theorem c05_sd_step_domain_refuted :
-  (exists c s eio payload tbl, Inv s /\ has_actions c = false /\
-     c05_sd_step c s eio payload tbl (snd (xstep c s (EventSD eio payload tbl))) = false) /\
-  (exists c s eio payload tbl, Inv s /\ has_actions c = false /\
-     (forall ns ev args h a, reserved ev = false -> responsible c ev ns args = Some (Some h, a) ->
-                             hid_for c ev_disconnect ns <> Some h) /\
-     c05_sd_step c s eio payload tbl (snd (xstep c s (EventSD eio payload tbl))) = false).
+  exists c s eio payload tbl, Inv s /\ has_actions c = false /\
+     c05_sd_step c s eio payload tbl (snd (xstep c s (EventSD eio payload tbl))) = false.
 Proof.
-  split.
-  - exists SdEx.c1, SdEx.s1, Ex.e1, SdEx.p_msg, SdEx.t_msg. split; [apply reachable_Inv|]. vm_compute. split; reflexivity.
-  - exists SdEx.c3, SdEx.s3, Ex.e1, SdEx.p_msg, SdEx.t_msg. split; [apply reachable_Inv|]. split; [reflexivity|].
-    split; [|vm_compute; reflexivity].
-    intros ns ev args h a Hres Hr Hh.
-    unfold hid_for, responsible, get_event_handler, get_namespace_handler in *. cbn [handlers ns_handlers SdEx.c3 aget] in *.
-    destruct (str_eqb slash ns) eqn:E; cbn [aget] in *; [|discriminate].
-    cbn in Hh. inversion Hh; subst h; clear Hh.
-    destruct ev; cbn [ev_lookup] in Hr; try (rewrite Hres in Hr; discriminate).
-    cbn [aget] in Hr.
-    destruct (str_eqb (s2l "connect") s) eqn:E1; [inversion Hr|].
-    destruct (str_eqb (s2l "disconnect") s) eqn:E2.
-    + apply str_eqb_eq in E2. subst s. discriminate Hres.
-    + destruct (str_eqb (s2l "msg") s); [inversion Hr|]. rewrite Hres in Hr. discriminate.
+  exists SdEx.c1, SdEx.s1, Ex.e1, SdEx.p_msg, SdEx.t_msg. split; [apply reachable_Inv|]. vm_compute. split; reflexivity.
 Qed.
+
+(* a disconnect handler that can never be called (three parameters, own namespace): the disconnect
+   raises, no ACK is sent, and the checker (with the precise disc_failed) accepts that *)
+Example c05_sd_step_unfit_disconnect_handler :
+  snd (xstep SdEx.c3 SdEx.s3 (EventSD Ex.e1 SdEx.p_msg SdEx.t_msg)) =
+    [Call 3 [Ex.S 0; PInt 5]; Out Ex.e1 (PStr [49])] /\
+  c05_sd_step SdEx.c3 SdEx.s3 Ex.e1 SdEx.p_msg SdEx.t_msg
+    (snd (xstep SdEx.c3 SdEx.s3 (EventSD Ex.e1 SdEx.p_msg SdEx.t_msg))) = true.
+Proof. vm_compute. split; reflexivity. Qed.
 
 (* the domain conditions are satisfiable by a configuration with a disconnect handler *)
 Module SdDom.
@@ -519,20 +508,16 @@ Module SdDom.
   Definition sD := fst (run cD srv_init [EioConnect e1 env1; EioMessage e1 (PStr (s2l "0")) []]).
   Lemma cD_domain : sd_domain cD.
   Proof.
-    split.
-    - intros ns ev args h a Hres Hr Hh.
-      unfold hid_for, responsible, get_event_handler, get_namespace_handler in *. cbn [handlers ns_handlers cD aget] in *.
-      destruct (str_eqb slash ns) eqn:E; cbn [aget] in *; [|discriminate].
-      cbn in Hh. inversion Hh; subst h; clear Hh.
-      destruct ev; cbn [ev_lookup] in Hr; try (rewrite Hres in Hr; discriminate).
-      cbn [aget] in Hr.
-      destruct (str_eqb (s2l "connect") s) eqn:E1; [inversion Hr|].
-      destruct (str_eqb (s2l "disconnect") s) eqn:E2.
-      + apply str_eqb_eq in E2. subst s. discriminate Hres.
-      + destruct (str_eqb (s2l "msg") s); [inversion Hr|]. rewrite Hres in Hr. discriminate.
-    - intros ns dh pre b Hr Hb _. left.
-      unfold responsible, get_event_handler, get_namespace_handler in Hr. cbn [handlers ns_handlers cD aget] in Hr.
-      destruct (str_eqb slash ns); cbn in Hr; [|discriminate]. inversion Hr; subst. cbn in Hb. inversion Hb; subst. reflexivity.
+    intros ns ev args h a Hres Hr Hh.
+    unfold hid_for, responsible, get_event_handler, get_namespace_handler in *. cbn [handlers ns_handlers cD aget] in *.
+    destruct (str_eqb slash ns) eqn:E; cbn [aget] in *; [|discriminate].
+    cbn in Hh. inversion Hh; subst h; clear Hh.
+    destruct ev; cbn [ev_lookup] in Hr; try (rewrite Hres in Hr; discriminate).
+    cbn [aget] in Hr.
+    destruct (str_eqb (s2l "connect") s) eqn:E1; [inversion Hr|].
+    destruct (str_eqb (s2l "disconnect") s) eqn:E2.
+    - apply str_eqb_eq in E2. subst s. discriminate Hres.
+    - destruct (str_eqb (s2l "msg") s); [inversion Hr|]. rewrite Hres in Hr. discriminate.
   Qed.
   Example model_passes_c05_sd_step_ex :
     has_actions cD = false /\ MOK (mg sD) /\ sd_domain cD /\
